@@ -27,4 +27,40 @@ ENTRIES = {
     },
 }
 
+QUEUE_NOTE = ("Trusted: TLC; probe sinks placed by the harness in front of/behind every queue (harness/record_queue.cpp); the "
+              "harness computes each packet's serialisation time from its observed size and the configured bandwidth with exact "
+              "integer arithmetic, the specification decides everything else (drop rule, recurrence, FIFO, conservation). Bounds: "
+              "TLC-enumerated schedules of <= 3 packets (+ echo replies) on 1-2 hops, random real-unit runs of <= 40 packets on "
+              "1-3 hops (bandwidth 0 or 1 kB/s - 1 GB/s, latency 0 - 10 s). Departure tolerance: one tick in real-unit runs.")
+ENTRIES["C09"] = {
+    "level": "model_checking",
+    "technique": "TLA+ spec (Queue) model-checked by TLC; TLC-generated arrival schedules executed on real sim::queue chains; recorded traces validated by TLC (TraceQueue) against the spec",
+    "text": ("spec/Queue.tla is the FIFO-link model (ready time, serialiser, departure recurrence). TLC proves on the bounded model "
+             "the stated consequences (never faster than latency+serialisation, rate bound, FIFO, work conservation) and enumerates "
+             "arrival schedules including coincidences with departures and synchronous re-entry; every schedule and thousands of random "
+             "real-unit topologies run on the real queues between probe sinks and each recorded trace is accepted by TLC only if every "
+             "departure happens exactly at the time the spec allows."),
+    "note": QUEUE_NOTE,
+}
+ENTRIES["C10"] = {
+    "level": "model_checking",
+    "technique": "TLA+ spec (Queue) model-checked by TLC; recorded queue traces (arrivals, drop callbacks, departures, quiescence) validated by TLC (TraceQueue)",
+    "text": ("The tail-drop rule, the byte account and the ledger (every packet forwarded once or dropped once, drop reported at the "
+             "instant of the drop, control packets never dropped) are part of spec/Queue.tla; TLC checks account/capacity/no-duplicate "
+             "invariants on the bounded model, and every trace recorded from real queues (TLC-enumerated overload schedules and random "
+             "mixes of droppable and undroppable packets over 1-3 hops) must be a behaviour of the spec, ending with all queues empty."),
+    "note": QUEUE_NOTE,
+}
+ENTRIES["C14"] = {
+    "level": "model_checking",
+    "technique": "TLA+ spec (Resolver) model-checked by TLC; TLC-generated and random resolver programs executed on real resolvers; recorded traces validated by TLC (TraceResolver)",
+    "text": ("spec/Resolver.tla: serial FIFO host lookups with compounding latency, literals within 1 us without consulting the "
+             "configuration, cancel/destroy abort exactly once. TLC checks exactly-once / no-stuck / FIFO on the bounded model and emits "
+             "all op schedules within the bound; these and random programs (ops inside completion handlers, destruction) run on real "
+             "tcp/udp resolvers and each trace (requests, configuration calls, completions with time/error/addresses/port) must be a "
+             "behaviour of the spec."),
+    "note": ("Trusted: TLC; harness/record_resolver.cpp (scripted configuration logging every hostname_lookup). Time unit 1 us, "
+             "tolerance 1 us as stated. Bounds: <= 4 ops exhaustively over 3 names, <= 25 ops at random over 4 names."),
+}
+
 NOT_APPLICABLE = {}
